@@ -1,7 +1,7 @@
 (* C15 -- the program store is an ordered map with exact LIST / DELETE ranges.
    Statements only; proofs in Proofs/Store.v.  `get ls n` is the abstract map behind the list of lines, `asc ls`
    says the line numbers ascend strictly (the BTreeMap's order). *)
-From BL Require Import Base.Prelude Lang.Token Mach.Listing Proofs.Store.
+From BL Require Import Base.Prelude Mach.Val Lang.Token Lang.Lex Mach.Compile Mach.Listing Mach.Runtime Proofs.Store Proofs.StoreRt.
 From Coq Require Import String.
 Local Open Scope N_scope.
 
@@ -38,6 +38,22 @@ Print Assumptions C15_list_range.
 Theorem C15_get_In : forall ls n t, asc ls -> (Store.get ls n = Some t <-> In (n, t) ls).
 Proof. intros ls n t H. split; [apply get_In | apply In_get; exact H]. Qed.
 Print Assumptions C15_get_In.
+
+(* in every state the public API can reach (enter, execute, interrupt, snapshots) the stored lines ascend strictly *)
+Theorem C15_reachable_sorted : forall O r, reachable O r -> asc (ls_lines (r_listing r)).
+Proof. exact reachable_sorted. Qed.
+Print Assumptions C15_reachable_sorted.
+
+(* a numbered line, in any reachable state that is not waiting for a reply: the number is at most 65529, the line
+   is inserted / replaced (or deleted when nothing follows the number), and no other line changes *)
+Theorem C15_numbered_line_effect : forall O r s n toks r' b k, reachable O r ->
+  (match r_state r with StInput | StInkey => False | _ => True end) ->
+  utf8_len s <= MAX_LINE_LEN -> lex s = Ok (Some n, toks) -> rt_enter O r s = Ok (r', b) ->
+  n <= 65529 /\
+  Store.get (ls_lines (r_listing r')) k =
+    if n =? k then (match toks with [] => None | _ => Some toks end) else Store.get (ls_lines (r_listing r)) k.
+Proof. exact numbered_line_effect. Qed.
+Print Assumptions C15_numbered_line_effect.
 
 Example C15_witness :
   let l := mkListing [(10, [TWord WEnd]); (20, [TWord WStop]); (30, [TWord WEnd])] [] [] in
